@@ -75,7 +75,7 @@ impl TryFrom<f64> for Decimal {
     }
 }
 
-fn gcd(a: u32, b: u32) -> u32 {
+pub(crate) fn gcd(a: u32, b: u32) -> u32 {
     if b == 0 {
         a
     } else {
